@@ -55,8 +55,12 @@ def run(ctx):
     add("set_list", c13.ITER, [seq_set_program(rng, SC.VOC_FULL, 5, L) for _ in range(reps)], "set_ord_repl")
     add("set_list", c13.NOGC, [seq_set_program(rng, SC.VOC_NOGC, 5, L) for _ in range(reps)], "set_ord")
     add("set_tree", c15.SKIP + c15.ELLEN + c15.BRONSON[:2], [seq_set_program(rng, SC.VOC_FULL, 6, L, minmax=True) for _ in range(reps)], "set_ord")
-    add("set_hash", c14.STD, [seq_set_program(rng, SC.VOC_FULL, 7, L) for _ in range(reps)], "set_unord")
-    add("set_hash", c14.REPL, [seq_set_program(rng, SC.VOC_FULL, 7, L) for _ in range(reps)], "set_unord_repl")
+    # fixed sequences around colliding keys (h1: all keys collide, h2: same parity collides, h3: hashes differ only in high/middle bits)
+    COLL = ["ins:1,ins:5,ins:3,find:1,find:3,find:5,era:1,find:1,size,era:5,find:3,ins:7,ins:2,ins:4,find:2,upd1:3,era:3,find:7,empty;trav,size,check",
+            "ins:6,ins:2,ins:4,find:2,find:4,find:6,ext:2,get:4,era:6,size,upd0:2,upd1:2,insf:6,findf:6,eraf:4,find:2,empty;trav,size,check",
+            "ins:5,ins:1,find:5,find:1,era:5,era:1,empty,ins:3,ins:7,ins:1,era:3,find:7,find:1,size;trav,size,check"]
+    add("set_hash", c14.STD, COLL + [seq_set_program(rng, SC.VOC_FULL, 7, L) for _ in range(reps * 2)], "set_unord")
+    add("set_hash", c14.REPL, COLL + [seq_set_program(rng, SC.VOC_FULL, 7, L) for _ in range(reps * 2)], "set_unord_repl")
     add("set_lock", c16.CUCKOO + c16.STRIPED, [seq_set_program(rng, c16.VOC, 8, L, fin="size") for _ in range(reps)], "set_unord")
     vlib.run_jobs(ctx, jobs)
     vlib.validate_histories(ctx, jobs, "LinQueue", c07.CONSTS, group="queue")
